@@ -5,10 +5,8 @@ import gzip
 import json
 import os
 import re
-import shutil
 import struct
 import subprocess
-import tempfile
 import urllib.parse
 import zlib
 from concurrent.futures import ThreadPoolExecutor
@@ -192,10 +190,11 @@ def valid_utf8(b):
         return False
 
 
-def json_domain(v):
-    """nil, bool, numbers (finite), strings, lists, maps (byte is a number); no byte_slice, buffer, others"""
+def json_encodable(v):
+    """the values the JSON part of the property quantifies over: nil, bool, numbers (finite), strings, byte slices,
+    lists, maps of those"""
     for x in walk(v):
-        if x[0] in ("n", "B", "i", "y", "s", "l", "m"):
+        if x[0] in ("n", "B", "i", "y", "s", "b", "l", "m"):
             continue
         if x[0] == "f" and float_fraction(x[1]) is not None:
             continue
@@ -284,7 +283,31 @@ def text_tok(rng, b, strict=None):
     return tag + ":" + b.hex()
 
 
+def gen_number_text(rng):
+    r = rng.below(10)
+    if r < 3:
+        t = str(rng.choice(INT_POOL) if rng.chance(1, 2) else rng.next() - 2 ** 63)
+    elif r < 6:
+        bits = rng.next()
+        f = struct.unpack(">d", struct.pack(">Q", bits))[0]
+        t = repr(f) if f == f else "NaN"
+    elif r < 7:
+        t = rng.choice(["0.1", "3.14159", "1e300", "16777217", "1e39", "-2.5e-45", "0.30000000000000004", "1e23", "5e-324",
+                        "2.2250738585072011e-308", "179769313486231580793728971405303415079934132710037826936173778980444968292764750946649017977587207096330286416692887910946555547851940402630657488671505820681908902000708383676273854845817711531764475730270069855571366959622842914819860834936475292719074168444365510704342711559699508093042880177904174497791.9999999999999999999999999999999999999999999999999999999999999999999999"])
+    elif r < 8:
+        t = rng.choice(["0x", "0X", "0b", "0o", "-0x", "+0b"]) + "%x" % rng.below(1 << 20)
+    elif r < 9:
+        t = "%d_%03d" % (rng.below(1000), rng.below(1000))
+    else:
+        t = rng.choice(["true", "false", "T", "f", "True", "FALSE", "0", "1", "yes", "tRUE"])
+    if rng.chance(1, 12):
+        t = rng.choice([" ", "+", "-", "\t"]) + t
+    return t.encode()
+
+
 def gen_arg(rng, fname, kind, ctx):
+    if kind == "str" and fname.startswith("strconv.") and rng.chance(2, 3):
+        return text_tok(rng, gen_number_text(rng))
     if kind in ("str", "bytes"):
         b = gen_bytes(rng, ctx)
         ctx.setdefault("first", b)
@@ -764,11 +787,11 @@ def run(res):
         res.violation({"property": PROP, "kind": "model-build-failed", "stage": "extraction", "log": (err or "")[-3000:],
                        "broken": getattr(res, "broken", None)}, nofail=True, tag="extract")
         return
-    work = tempfile.mkdtemp(prefix="c19-", dir=C.WORK if os.path.isdir(C.WORK) else None)
-    try:
-        _body(res, quick, obs, model, records, proved, repo)
-    finally:
-        shutil.rmtree(work, ignore_errors=True)
+    if not quick and proved:
+        if not C.coqchk(res, PROP):
+            proved = False
+            res.broken = {"log_tail": "coqchk rejected the compiled proofs: " + str(res.coverage.get("coqchk")), "errors": []}
+    _body(res, quick, obs, model, records, proved, repo)
 
 
 def _body(res, quick, obs, model, records, proved, repo):
@@ -784,11 +807,11 @@ def _body(res, quick, obs, model, records, proved, repo):
     regular = {r["name"] for r in records if r["regular"]}
     irregular = sorted(r["name"] for r in records if not r["regular"])
 
-    per_fn = 110 if quick else 2200
-    ncodec = 260 if quick else 5200
-    nmal = 200 if quick else 4000
-    njson = 700 if quick else 14000
-    ntext = 500 if quick else 10000
+    per_fn = 300 if quick else 4500
+    ncodec = 700 if quick else 10000
+    nmal = 500 if quick else 8000
+    njson = 2000 if quick else 30000
+    ntext = 1500 if quick else 20000
 
     # ---- cases (corpus first, then generated)
     lines = []
@@ -864,7 +887,7 @@ def _body(res, quick, obs, model, records, proved, repo):
     known_hits = {}
     corr = []
     nontrivial = set()
-    observations = {"string_came_back_as_byte_slice": 0, "int_came_back_as_float": 0, "out_of_domain_value_returned": 0}
+    observations = {"wrapper_accepts_more_than_specified": 0, "string_came_back_as_byte_slice": 0, "int_came_back_as_float": 0, "out_of_domain_value_returned": 0}
     stats = {"W": 0, "C": 0, "D": 0, "J": 0, "K": 0, "in_kind": 0, "rejected": 0, "go_errors": 0, "model_compared": 0}
     samples = []
 
@@ -931,6 +954,10 @@ def _body(res, quick, obs, model, records, proved, repo):
                     exp = err_class(out, direct)
                 if klass == "rune-argument-not-ascii":
                     pass  # the specification (one character) and the code (one byte) differ on these: known finding
+                elif direct == "-" and mo.get("dargs") != "-":
+                    # the wrapper converts an argument the specification does not list (a wider domain):
+                    # outside the property, there is no Go result to compare with
+                    observations["wrapper_accepts_more_than_specified"] += 1
                 else:
                     if mo.get("callee") != ob.get("callee"):
                         diff(cid, "callee", ob.get("callee"), mo.get("callee"))
@@ -949,10 +976,7 @@ def _body(res, quick, obs, model, records, proved, repo):
                 continue
             if codec == "json":
                 kl = classes_of_json(v)
-                if json_domain(v) or (kl and kl <= {"json-byte-slice", "json-int-above-2^53", "json-invalid-utf8",
-                                                   "json-top-level-nil"} and all(
-                        x[0] in ("n", "B", "i", "y", "s", "l", "m", "b") or (x[0] == "f" and float_fraction(x[1]) is not None)
-                        for x in walk(v))):
+                if json_encodable(v):
                     if enc.startswith("e:") or dec.startswith("e:") or dec == "-":
                         viol(cid, "json codec failed on a value of the JSON domain: enc=%s dec=%s" % (enc[:80], dec[:80]),
                              sorted(kl)[0] if kl else None)
@@ -1039,8 +1063,7 @@ def _body(res, quick, obs, model, records, proved, repo):
                 viol(cid, "panic in json: %r" % ob)
                 continue
             kl = classes_of_json(v)
-            in_dom = json_domain(v) or bool(kl & {"json-byte-slice"})
-            if in_dom and all(x[0] != "f" or float_fraction(x[1]) is not None for x in walk(v)):
+            if json_encodable(v):
                 agree_kl = sorted(kl & {"json-top-level-nil", "json-byte-slice"})
                 if mar != enc:
                     viol(cid, "json.marshal and encode(_, \"json\") differ: %s vs %s" % (mar[:200], enc[:200]),
@@ -1142,6 +1165,7 @@ def _body(res, quick, obs, model, records, proved, repo):
         res.known_finding("%s [%s]: %s (%d cases; e.g. %s %s via %s)" % (
             known[klass].get("what", klass), klass, h["why"][:160], len(hits),
             h.get("fname") or h.get("codec") or "json", " ".join(h.get("args", [])) or h.get("value", ""), h.get("route")))
+    oracle_viol.sort(key=lambda m: len(lines[int(m["case"][1:])]))   # shortest failing inputs first
     for v in oracle_viol[:10]:
         v.update({"property": PROP, "kind": "oracle-violation", "input": lines[int(v["case"][1:])],
                   "replay_cmd": "printf '<input>\\n' | build/bin/c19obs run"})
